@@ -6,6 +6,7 @@ import (
 	"rare/pkg/aggregation"
 	"rare/pkg/extractor"
 	"rare/pkg/logger"
+	"rare/pkg/verifhook"
 	"sync"
 	"time"
 )
@@ -54,9 +55,12 @@ PROCESSING_LOOP:
 				aggregator.Sample(match.Extracted)
 			}
 			outputMutex.Unlock()
+			verifhook.Point("agg.afterSampleBatch")
 		}
 	}
+	verifhook.Point("agg.beforeDone")
 	outputDone <- true
 
+	verifhook.Point("agg.beforeFinalRender")
 	writeOutput()
 }
